@@ -119,6 +119,10 @@ class BaseFileLock(abc.ABC):
         else:
             self._thread_lock = threading.Lock()
 
+        # The descriptor another thread is currently trying to lock, if
+        # any: a child forked meanwhile must not keep it open either
+        self._pending_fd: Optional[int] = None
+
         # For reentrant locks, the number of levels deep. When this
         # falls to zero, the file lock can be released
         self._lock_counter: int = 0
@@ -132,12 +136,14 @@ class BaseFileLock(abc.ABC):
         the parent, but keeping it open would keep the file locked even
         after the parent is gone) and start over as not holding the lock.
         """
-        fd, self._lock_file_fd = self._lock_file_fd, None
-        if fd is not None:
-            try:
-                os.close(fd)
-            except OSError:
-                pass
+        fds = (self._lock_file_fd, self._pending_fd)
+        self._lock_file_fd = self._pending_fd = None
+        for fd in fds:
+            if fd is not None:
+                try:
+                    os.close(fd)
+                except OSError:
+                    pass
         self._lock_counter = 0
         if self._reentrant:
             self._thread_lock = threading.RLock()
@@ -304,6 +310,8 @@ class BaseFileLock(abc.ABC):
             fd = os.open(self._lock_file, self._FD_OPEN_MODE)
         except OSError:
             return
+        # Also known to the at-fork hook while still waiting for the lock
+        self._pending_fd = fd
         try:
             self._lock(fd, block)
         except (IOError, OSError):
@@ -314,6 +322,8 @@ class BaseFileLock(abc.ABC):
             raise
         else:
             self._lock_file_fd = fd
+        finally:
+            self._pending_fd = None
 
     def _release(self) -> None:
         """
